@@ -1,3 +1,68 @@
-import NxModel.Bytes
-/-! driver stub for C16 (replaced when the property's model lands) -/
-def main : IO Unit := IO.println "stub C16"
+import NxModel.Nex.Kerberos
+import NxModel.DriverUtil
+/-! line-protocol driver for the Kerberos model (C16); bytes as hex (`-` = empty)
+  kd.old <base> <pidcount> <password> <pid>      kd.new <base> <pidcount> <password> <pid>
+  enc <key> <data>      dec <key> <buffer>      chk <key> <buffer>
+  ct.enc <keysize> <pidsize> <key> <sessionkey> <target> <internal>     ct.dec <keysize> <pidsize> <key> <data>
+  st.enc <keysize> <pidsize> <version> <key> <ticketkey> <datetime> <source> <sessionkey>
+  st.dec <keysize> <pidsize> <version> <key> <data>
+  selftest
+-/
+open Nx Nx.Nex Nx.Nex.Kerberos
+
+def showRes (r : Except Err String) : String :=
+  match r with
+  | .ok s => "ok " ++ s
+  | .error e => "err " ++ e.name
+
+def ascii (s : String) : Bytes := s.toUTF8.toList
+
+def selftest : Bool :=
+  (deriveOld 65000 1024 (ascii "password") 123456).map toHex == .ok "bd9d83b0d4102b72de3e14f44938c989" &&
+  (deriveOld 5 10 (ascii "password") 123456).map toHex == .ok "6ba537f0cc7e0d25813f2ea010eb2115" &&
+  (deriveNew 1 1 (ascii "password") 123456).map toHex == .ok "591b45defe20abcd6ec412b63fbacff5" &&
+  (deriveNew 5 10 (ascii "password") 123456).map toHex == .ok "09409830bf949ab56fae81bd028fe18d" &&
+  (Kerberos.encrypt (ascii "key") (ascii "test message")).map toHex == .ok "7f09479904e21e393b2a6f1ed5b96acc69a869dce66679d0cedb242d" &&
+  toHex (Crypto.md5 []) == "d41d8cd98f00b204e9800998ecf8427e" &&
+  toHex (Crypto.hmacMd5 (ascii "Jefe") (ascii "what do ya want for nothing?")) == "750c783e6ab0b503eaa86e310a5db738" &&
+  toHex (Crypto.rc4 (ascii "Key") (ascii "Plaintext")) == "bbf316e8d940af0ad3"
+
+def step (line : String) : String :=
+  match words line with
+  | ["kd.old", b, p, pw, pid] => (match b.toNat?, p.toNat?, fromHex pw, pid.toNat? with
+    | some b, some p, some pw, some pid => showRes ((deriveOld b p pw pid).map hexOut)
+    | _, _, _, _ => "bad-op")
+  | ["kd.new", b, p, pw, pid] => (match b.toNat?, p.toNat?, fromHex pw, pid.toNat? with
+    | some b, some p, some pw, some pid => showRes ((deriveNew b p pw pid).map hexOut)
+    | _, _, _, _ => "bad-op")
+  | ["enc", k, d] => (match fromHex k, fromHex d with
+    | some k, some d => showRes ((Kerberos.encrypt k d).map hexOut)
+    | _, _ => "bad-op")
+  | ["dec", k, d] => (match fromHex k, fromHex d with
+    | some k, some d => showRes ((Kerberos.decrypt k d).map hexOut)
+    | _, _ => "bad-op")
+  | ["chk", k, d] => (match fromHex k, fromHex d with
+    | some k, some d => if check k d then "ok T" else "ok F"
+    | _, _ => "bad-op")
+  | ["ct.enc", ks, ps, k, sk, target, internal] =>
+    (match ks.toNat?, ps.toNat?, fromHex k, fromHex sk, target.toNat?, fromHex internal with
+    | some ks, some ps, some k, some sk, some target, some internal =>
+      showRes ((ClientTicket.encrypt ⟨ks, ps, 0⟩ k ⟨sk, target, internal⟩).map hexOut)
+    | _, _, _, _, _, _ => "bad-op")
+  | ["ct.dec", ks, ps, k, d] => (match ks.toNat?, ps.toNat?, fromHex k, fromHex d with
+    | some ks, some ps, some k, some d =>
+      showRes ((ClientTicket.decrypt ⟨ks, ps, 0⟩ k d).map (fun t => s!"{hexOut t.sessionKey} {t.target} {hexOut t.internal}"))
+    | _, _, _, _ => "bad-op")
+  | ["st.enc", ks, ps, ver, k, tk, ts, source, sk] =>
+    (match ks.toNat?, ps.toNat?, ver.toNat?, fromHex k, fromHex tk, ts.toNat?, source.toNat?, fromHex sk with
+    | some ks, some ps, some ver, some k, some tk, some ts, some source, some sk =>
+      showRes ((ServerTicket.encrypt ⟨ks, ps, ver⟩ k tk ⟨ts, source, sk⟩).map hexOut)
+    | _, _, _, _, _, _, _, _ => "bad-op")
+  | ["st.dec", ks, ps, ver, k, d] => (match ks.toNat?, ps.toNat?, ver.toNat?, fromHex k, fromHex d with
+    | some ks, some ps, some ver, some k, some d =>
+      showRes ((ServerTicket.decrypt ⟨ks, ps, ver⟩ k d).map (fun t => s!"{t.timestamp} {t.source} {hexOut t.sessionKey}"))
+    | _, _, _, _, _ => "bad-op")
+  | ["selftest"] => if selftest then "ok T" else "ok F"
+  | _ => "bad-op"
+
+def main : IO Unit := runLines step
